@@ -20,7 +20,7 @@ LEVEL_NOTE = ("Bounds: record length n in [F, F+1] quick / [F, F+4] thorough whe
               "existential over cut positions is first tried at the positions where the class's own match lies and expanded "
               "to all positions only if that instance can fail. Generic classes over 3'-overhang cutters compile since fix 297887b; their "
               "totality is C17's obligation, the fragment semantics stated by C04 (leading overhang kept) is the 5' one. Trusted: z3, CPython, symx models (re, Bio.Restriction.catalyse, Bio.Seq*).")
-LEVEL_NOTE_EXTRA = 'generic BsaI module at n = F+8 (a whole further site fits inside the target) and a generic module over LpnPI, a cutter with ambiguity codes in its site (known finding K1 excluded by assumption, see DESIGN 13.3; demonstrated in the thorough tier); each accepted/rejected instance is asked twice.'
+LEVEL_NOTE_EXTRA = 'generic BsaI module at n = F+8 (a whole further site fits inside the target) and a generic module over LpnPI, a cutter with ambiguity codes in its site (known finding K1 excluded by assumption, see DESIGN 13.3; demonstrated in the thorough tier); each accepted/rejected instance is asked twice. Also: a record typed before and edited in place while the first entity is alive; plain SeqRecord inputs (whatever the accessors answer must be true of the circle).'
 TECHNIQUE = "bounded symbolic execution of the real Python source (symx) with z3 on fully symbolic plasmids; restriction-geometry oracle; replay on the real stack"
 EXPLANATION = ("symbolic execution of the kit/generic classes on a symbolic plasmid of every length in the bound: the regex "
                "search loop, the wrap-around group extraction, the illegal-site screen and the rotate-and-slice fragment "
